@@ -41,6 +41,11 @@ pub enum Arr {
     /// shuffled data followed (or, if the flag is set, preceded) by a run holding k/8 of the
     /// occurrences of the most frequent symbol: padded files, BWT-like tails
     Padded(bool, u8),
+    /// shuffled, except that the occurrences number 8192*k + {-1, 0, 1} of one first-level symbol
+    /// class (symbols sharing the top two bits if the byte is even, the top bit otherwise) are
+    /// put on positions B*S + {-1, 0, 1}, S in {256, 512, 2048, 4096}: select samples that
+    /// coincide with block and superblock borders (see `align_occurrences`).
+    Aligned(u8),
 }
 
 #[derive(Clone, Debug, PartialEq, Eq, Hash, Serialize, Deserialize)]
@@ -118,6 +123,64 @@ pub fn deep_counts(n: usize, d: usize, k: usize) -> Vec<usize> {
     counts[last] += n - s_prev;
     counts.reverse();
     counts
+}
+
+/// Shuffles `cls` and `oth` together such that the sampled occurrences of the `cls` elements
+/// (number 8192*k + {-1, 0, 1}, for every k that fits) land on positions B*S + {-1, 0, 1}
+/// (S in {256, 512, 2048, 4096}): select samples that coincide with block and superblock borders.
+/// Per sample the border is either one of the first three feasible ones (dense stretch) or up to
+/// twice the fair share of `oth` elements away (sparse stretch). With at most 8192 `cls` elements
+/// one pseudo-random occurrence is aligned. `cls` must not be empty.
+pub fn align_occurrences<T: Copy>(mut cls: Vec<T>, mut oth: Vec<T>, rng: &mut Rng) -> Vec<T> {
+    rng.shuffle(&mut cls);
+    rng.shuffle(&mut oth);
+    let total = cls.len();
+    const SAMPLE: usize = 8192;
+    // 0-based indices of the occurrences to align
+    let mut targets: Vec<usize> = Vec::new();
+    if total <= SAMPLE {
+        targets.push(rng.below_usize(total));
+    } else {
+        let mut k = 1;
+        loop {
+            let t = k * SAMPLE + rng.below_usize(3) - 1;
+            if t >= total {
+                break;
+            }
+            targets.push(t);
+            k += 1;
+        }
+    }
+    let mut out: Vec<T> = Vec::with_capacity(total + oth.len());
+    let (mut ci, mut oi) = (0usize, 0usize);
+    let m = targets.len();
+    for (idx, &t) in targets.iter().enumerate() {
+        let start = out.len();
+        let min_q = start + (t - ci);
+        let rem_oth = oth.len() - oi;
+        let s_size = [256usize, 512, 2048, 4096][rng.below_usize(4)];
+        let dq = rng.below_usize(3);
+        let room = if rng.chance(1, 2) { rem_oth.min(3 * s_size) } else { rem_oth.min(2 * rem_oth / (m - idx)) };
+        let (lo_b, hi_b) = ((min_q + 1 + s_size) / s_size, (min_q + room) / s_size);
+        let q = if hi_b >= lo_b {
+            let b = lo_b + rng.below_usize(hi_b - lo_b + 1);
+            (b * s_size + dq).saturating_sub(1).clamp(min_q, min_q + rem_oth)
+        } else {
+            min_q + rng.below_usize(room + 1)
+        };
+        let use_oth = q - min_q;
+        out.extend_from_slice(&cls[ci..t]);
+        out.extend_from_slice(&oth[oi..oi + use_oth]);
+        rng.shuffle(&mut out[start..]);
+        out.push(cls[t]);
+        ci = t + 1;
+        oi += use_oth;
+    }
+    let start = out.len();
+    out.extend_from_slice(&cls[ci..]);
+    out.extend_from_slice(&oth[oi..]);
+    rng.shuffle(&mut out[start..]);
+    out
 }
 
 impl Recipe {
@@ -269,6 +332,36 @@ impl Recipe {
                     out.extend(std::iter::repeat(sym(0)).take(pad));
                 }
             }
+            Arr::Aligned(p) => {
+                let p = p as usize;
+                let used_max = (0..d).map(sym).max().unwrap_or(0);
+                let bits = crate::util::bitlen(used_max).max(1);
+                // width of the first-level class: 2 bits (quad trees) or 1 bit (binary trees)
+                let shift = if p % 2 == 0 { ((bits + 1) / 2) * 2 - 2 } else { bits - 1 };
+                // the class: two times out of three the rarest one with more than one select
+                // sample (long sparse search ranges), otherwise the class of a frequent symbol
+                let mut totals: Vec<(usize, u128)> = Vec::new();
+                for j in 0..d {
+                    let c = sym(j) >> shift;
+                    match totals.iter_mut().find(|(_, cc)| *cc == c) {
+                        Some(e) => e.0 += counts[j],
+                        None => totals.push((counts[j], c)),
+                    }
+                }
+                totals.sort();
+                let sampled = totals.iter().find(|(tot, _)| *tot > 8192).map(|&(_, c)| c);
+                let class = match sampled {
+                    Some(c) if rng.chance(2, 3) => c,
+                    _ => sym(rng.below_usize(d.min(4))) >> shift,
+                };
+                let mut cls: Vec<u128> = Vec::new();
+                let mut oth: Vec<u128> = Vec::new();
+                for j in 0..d {
+                    let dst = if sym(j) >> shift == class { &mut cls } else { &mut oth };
+                    dst.extend(std::iter::repeat(sym(j)).take(counts[j]));
+                }
+                out = align_occurrences(cls, oth, &mut rng);
+            }
             Arr::Packed => {
                 let mut rest: Vec<u128> = Vec::with_capacity(self.n);
                 for j in 1..d {
@@ -389,6 +482,7 @@ fn arrangement() -> BoxedStrategy<Arr> {
         1 => Just(Arr::Packed),
         2 => (any::<bool>(), 1u8..=9).prop_map(|(h, k)| Arr::Padded(h, k)),
         2 => (8u8..=13).prop_map(Arr::RunsPow2),
+        3 => (0u8..4).prop_map(Arr::Aligned),
     ]
     .boxed()
 }
